@@ -230,7 +230,7 @@ func ruleC07R1(c *Ctx) {
 				}
 				for _, site := range failing {
 					sk := anchorName(site.Parent()) + "|" + canonOf(site.Value()) + fmt.Sprintf("|len(arg%d)>=256", idx)
-					if reason, ok := f6ReviewedSites[sk]; ok {
+					if reason, ok := lookupReviewed(f6ReviewedSites, sk); ok {
 						reasons = append(reasons, "at "+c.P.pos(site.Pos())+": "+reason)
 					} else {
 						unreviewed = append(unreviewed, c.P.pos(site.Pos()))
@@ -247,9 +247,10 @@ func ruleC07R1(c *Ctx) {
 				}
 				continue
 			}
-			if reason, ok := lookupReviewed(f6Reviewed, key); ok {
+			if mk, ok := lookupReviewedKey(f6Reviewed, key); ok {
+				reason := f6Reviewed[mk]
 				missing := ""
-				for _, req := range f6ReviewedRequires[key] {
+				for _, req := range f6ReviewedRequires[mk] {
 					if !requireHolds(pr, r, req) {
 						missing = req
 						break
@@ -899,11 +900,11 @@ func ruleC07R2(c *Ctx) {
 			n++
 			key := anchorName(fn) + "|" + what
 			if os.Getenv("SLOGCHECK_F6KEYS") != "" {
-				if _, ok := c07R2Reviewed[key]; !ok {
+				if _, ok := lookupReviewed(c07R2Reviewed, key); !ok {
 					fmt.Printf("R2KEY %q: \"\", // %s via %s\n", key, c.P.pos(in.Pos()), chainTo(reach, fn))
 				}
 			}
-			if reason, ok := c07R2Reviewed[key]; ok {
+			if reason, ok := lookupReviewed(c07R2Reviewed, key); ok {
 				c.assumed("C07.R2", fn, what, in.Pos(), "reviewed: "+reason)
 				return
 			}
